@@ -266,6 +266,23 @@ Fixpoint register_from (t : table) (routes : list (bytes * bytes)) : option tabl
   end.
 Definition register_all (routes : list (bytes * bytes)) : option table := register_from empty_table routes.
 
+(** [Handle] whose panic is RECOVERED by the caller: the Mux lives on.  parseRoute creates trie nodes before it detects
+    a bad [:name], so the rejected route leaves them behind (no info attached); counters are unchanged. *)
+Definition handle_attempt (t : table) (path method : bytes) : table :=
+  match parse_route (t_root t) path method (t_count t) with
+  | (root', POk cnt) =>
+    {| t_root := root'; t_max_params := Nat.max (t_max_params t) cnt; t_count := S (t_count t) |}
+  | (root', PErr _) =>
+    {| t_root := root'; t_max_params := t_max_params t; t_count := t_count t |}
+  end.
+Fixpoint attempts_from (t : table) (routes : list (bytes * bytes)) : table :=
+  match routes with
+  | [] => t
+  | (p, m) :: rest => attempts_from (handle_attempt t p m) rest
+  end.
+(** the table after these registration attempts, accepted or rejected, in order *)
+Definition register_attempts (routes : list (bytes * bytes)) : table := attempts_from empty_table routes.
+
 (** ** ServeHTTP, routing part: one relay call with the found info or the no-route info *)
 Inductive target := Route (r : nat) | NoRoute.
 Inductive event := Call (t : target) (ps : params).
